@@ -24,6 +24,9 @@ CFG = {
                    UtilOpts={1}, NZones=1),
     "quickL": dict(Temps={0, 100, 200}, CPs={1, 2}, DTCs={0, 50}, LatentCPs={150}, MaxStreams=3,
                    UtilOpts={1}, NZones=1),
+    # streams of zero duty (CP 0) between two temperatures: legal input that contributes rows but no heat
+    "quickZ": dict(Temps={0, 100, 200}, CPs={0, 1}, DTCs={0, 50}, LatentCPs=set(), MaxStreams=3,
+                   UtilOpts={1}, NZones=1),
     "deepL": dict(Temps={0, 100, 200, 300}, CPs={1, 2}, DTCs={0, 50}, LatentCPs={150}, MaxStreams=3,
                   UtilOpts={0, 1}, NZones=1),
     "quickB": dict(Temps={0, 100, 200}, CPs={1, 2}, DTCs={0, 50}, LatentCPs={150}, MaxStreams=3,
@@ -315,7 +318,7 @@ def check(prop: str, tier: str, run: Run, replay_case=None):
                 run.violation(clause, replay_case["case"], d)
         run.cov["evaluations"] = 1
         return
-    names = ["quickA", "quickL", "quickB"] if tier == "quick" else ["deepL", "quickB", "deepA", "deepB", "deepC"]
+    names = ["quickA", "quickL", "quickB", "quickZ"] if tier == "quick" else ["deepL", "quickB", "quickZ", "deepA", "deepB", "deepC"]
     run.assumptions += [
         "lattice inputs: temperatures multiples of 1 unit, tolerance windows of the code coincide with exact comparisons (DESIGN 3)",
         "TLC's evaluation of the definitional operators in spec/Cascade.tla is the oracle",
